@@ -568,7 +568,7 @@ def main():
     ap.add_argument("--scenarios", default="all", help="all | all-clean (skip known-defect scenarios) | name,name,...")
     ap.add_argument("--iters", type=int, default=None, help="executions per process (default: miri 1, others 2000)")
     ap.add_argument("--jobs", type=int, default=16)
-    ap.add_argument("--timeout", type=int, default=None, help="seconds per process (default: miri 300, others 180)")
+    ap.add_argument("--timeout", type=int, default=None, help="seconds per process (default: miri 300, others 600)")
     ap.add_argument("--watchdog-ms", type=int, default=None, help="in-process lost-wake-up watchdog (default 20000; 4000 for known-defect scenarios)")
     ap.add_argument("--fp", type=int, default=None, help="failpoint perturbation per mille (default: binary's own, 250)")
     ap.add_argument("--target-dir", default=None)
@@ -587,7 +587,7 @@ def main():
     lo, hi = parse_range(a.seeds)
     opts = {
         "iters": a.iters if a.iters is not None else (1 if tool == "miri" else 2000),
-        "timeout": a.timeout if a.timeout is not None else (300 if tool == "miri" else 180),
+        "timeout": a.timeout if a.timeout is not None else (300 if tool == "miri" else 600),
         "watchdog_ms": a.watchdog_ms if a.watchdog_ms is not None else 20000,
         "fp": a.fp,
         "miri_hooks": a.miri_hooks,
